@@ -83,3 +83,38 @@ func (r *Runtime) ProcessIoError(c Cont, ioErr error) (Cont, error) {
 	}
 	return c, nil
 }
+
+// A failedCallCont stands for the call of a value that cannot be called.  The
+// arguments of a call are evaluated before the call is attempted, so the
+// error is not raised when the continuation is made but when it is run.
+type failedCallCont struct {
+	next Cont
+	info *DebugInfo // where the call is made (the caller may be gone by then)
+	err  error
+}
+
+var _ Cont = (*failedCallCont)(nil)
+
+func newFailedCallCont(next, caller Cont, err error) *failedCallCont {
+	return &failedCallCont{next: next, info: caller.DebugInfo(), err: err}
+}
+
+// Push implements Cont.Push (the arguments are dropped).
+func (c *failedCallCont) Push(r *Runtime, v Value) {}
+
+// PushEtc implements Cont.PushEtc (the arguments are dropped).
+func (c *failedCallCont) PushEtc(r *Runtime, etc []Value) {}
+
+// RunInThread implements Cont.RunInThread: it raises the error.
+func (c *failedCallCont) RunInThread(t *Thread) (Cont, error) {
+	return nil, c.err
+}
+
+// Next implements Cont.Next.
+func (c *failedCallCont) Next() Cont { return c.next }
+
+// Parent implements Cont.Parent.
+func (c *failedCallCont) Parent() Cont { return c.next }
+
+// DebugInfo implements Cont.DebugInfo.
+func (c *failedCallCont) DebugInfo() *DebugInfo { return c.info }
